@@ -291,6 +291,40 @@ func C11(c *run.Ctx) {
 		}
 		c11PAR(c, w, set)
 	}
+	c11StaleRegistration(c)
+}
+
+// c11StaleRegistration: a request is pushed with a registered redirect URI; before the request_uri is used the registration is
+// replaced by one that no longer lists that URI. Whatever the authorization endpoint answers then, it does not redirect to a URI
+// the client does not register (success and error alike).
+func c11StaleRegistration(c *run.Ctx) {
+	if !c.Mine(3) && c.NShards > 3 {
+		return
+	}
+	for _, errCase := range []bool{false, true} {
+		w := world.New(world.Opts{})
+		sp := world.ClientSpec{ID: "c11-stale", Secret: "s11", RedirectURIs: []string{"https://old.example.org/cb", "https://keep.example.org/cb"}, GrantTypes: world.AllGrants, ResponseTypes: world.AllResponseTypes, Scopes: []string{"fosite", "openid"}}
+		w.AddClient(sp)
+		p := w.PAR(url.Values{"response_type": {"code"}, "scope": {"fosite"}, "state": {"state-0123456789"}, "redirect_uri": {"https://old.example.org/cb"}}, world.Basic("c11-stale", "s11"))
+		if p.Err != nil {
+			c.Inconcl("c11 stale registration: push failed: " + world.ErrDetail(p.Err))
+			return
+		}
+		sp2 := sp
+		sp2.RedirectURIs = []string{"https://keep.example.org/cb"}
+		if errCase {
+			sp2.Scopes = []string{"openid"} // the pushed scope is no longer allowed either: an error is due
+		}
+		w.Mem.Clients["c11-stale"] = sp2.Build()
+		az := w.Authorize(url.Values{"client_id": {"c11-stale"}, "request_uri": {p.S("request_uri")}}, world.Consent{})
+		c.Case(fmt.Sprintf("stale-registration pushed-redirect-dropped error-case=%v kind=%s location=%q", errCase, az.Kind, az.Location))
+		c.Count("c11_stale_registration_probes", 1)
+		if (az.Kind == "redirect" || az.Kind == "form_post") && strings.HasPrefix(az.Location+az.Action, "https://old.example.org/") {
+			c.Violate(run.Violation{Kind: "redirect-to-unqualified-uri", Key: fmt.Sprintf("redirect-to-unqualified-uri no-longer-registered (request_uri pushed before the registration changed) error=%v", az.Err != nil),
+				Detail: "the authorization endpoint redirected to " + az.Location + az.Action + ", which the client no longer registers",
+				History: []string{"push with redirect_uri=https://old.example.org/cb", "registration replaced: redirect URIs [https://keep.example.org/cb]", "authorize with the request_uri => " + az.Kind + " " + az.Location}})
+		}
+	}
 }
 
 func isLocalName(hn string) bool {
